@@ -42,6 +42,11 @@ CHECKS = {
   note="Proof level applies to rendering + layout layer only; the rest of the quantifier (all UTF-8 inputs through all stages) is sampled: corpus files, truncations at every boundary of short files, 12 mutation kinds, nesting generators to depth 200, random syntax-heavy strings.",
   technique="Lean 4 proof (loop invariants over documents) for rendering/layout + fuzzing oracle with panic/abort/timeout detection for unmodelled stages",
   ref="C11"),
+ "C18": dict(
+  text="Lean 4 theorem `converges`: for every history of didOpen/didChange/didClose over any number of documents and every interleaving of the handlers' store steps (each handler starts in arrival order, stores at any later time), after quiescence the stored text of each document is that of the last notification sent for it, and nothing after a close — proved by an invariant over schedule prefixes for the ticket protocol the server uses after the fix. The pre-fix protocol is kept in the model with kernel-checked counter-examples (stale overwrite, close undone, broken text not stored).",
+  note="Assumes the framework first-polls handlers in arrival order (tower-lsp buffer_unordered). Tie: the real IncanLanguageServer is driven as a tower Service, handler futures polled by hand in seeded schedules with the client channel drained on demand; its own receive/store event order (cfg(incan_verif) hook) is replayed on the model, which must accept every real store and predict the final hover. Real threads are not exercised.",
+  technique="Lean 4 proof (inductive invariant over all interleavings) + event-log replay correspondence + convergence oracle",
+  ref="C18"),
  "C19": dict(
   text="Lean 4 theorems over all documents (List Char, no length bound): offset->position->offset round trip on every character boundary, strict monotonicity, agreement with counting newlines/characters, span_to_range well-formed and inside the document for every pair of raw offsets (empty, reversed, past the end, inside a character), terminal line = editor line + 1; terminal column proved to be a byte count (partial: agrees with the character count when the line prefix is ASCII; counter-example kernel-checked and listed as a known finding).",
   note="u32/usize counters modelled as Nat; model tied to the real functions (and format_error rendering) by exhaustive small documents over a 6-character alphabet plus random documents.",
@@ -83,9 +88,9 @@ def main():
         "setup_cmd": "./setup.sh",
         "hooks": {
             "guard": "incan_verif",
-            "enable": "none needed: the harness links the unmodified /repo crates through their pub API (RUSTFLAGS='--cfg incan_verif' is reserved)",
+            "enable": "harness/.cargo/config.toml sets rustflags = [\"--cfg\", \"incan_verif\"]; the only hook is the LSP event log (src/lsp/mod.rs verif_hooks + 4 log calls in src/lsp/backend.rs), used by C18",
             "baseline_off_cmd": "cd /repo && cargo test --workspace --no-fail-fast --offline",
-            "source_commits": [],
+            "source_commits": ["3c16098"],
             "add_only": True,
         },
         "engines": [
